@@ -55,6 +55,22 @@ def prune(interp, cond):
     s = z3.Solver()
     s.set("timeout", 300)
     s.add(*cache[1], *interp.pc)
+    wfv = interp.state.get("wf_view")
+    if wfv is not None:
+        gi, gb = interp.state.get("ground_ints", []), interp.state.get("ground_bonds", [])
+        ic = interp.state.setdefault("inst_cache", [(-1, -1), []])
+        if ic[0] != (len(gi), len(gb)):
+            ints = list(gi)
+            bonds = list(gb)
+            for b_ in gb:
+                ints += [BondS.lo(b_), BondS.hi(b_)]
+            for x in ints[:4]:
+                for y in ints[:4]:
+                    if not x.eq(y):
+                        bonds.append(mkb(x, y))
+            ic[1] = [B(f) for f in GM.wf_instances(wfv[0], wfv[1], ints[:6], bonds[:10])]
+            ic[0] = (len(gi), len(gb))
+        s.add(*ic[1])
     s.push()
     s.add(cond)
     r1 = s.check()
@@ -112,6 +128,20 @@ CHANGE_COMPONENTS = {
 }
 
 
+PATTERNS = {
+    "atom": lambda v, x: [v.atom(x)],
+    "attr_has": lambda v, x, k: [v.attr_has(x, k)],
+    "attr_val": lambda v, x, k: [v.attr_val(x, k)],
+    "bond": lambda v, b: [v.bond(b)],
+    "battr_has": lambda v, b, k: [v.battr_has(b, k)],
+    "battr_val": lambda v, b, k: [v.battr_val(b, k)],
+    "as": lambda v, x: [v.as_has(x), v.as_val(x)],
+    "bs": lambda v, b: [v.bs_has(b), v.bs_val(b)],
+    "ac": lambda v, x, c: [v.ac_slot_has(x, c), v.ac_slot(x, c)],
+    "bc": lambda v, b, c: [v.bc_slot_has(b, c), v.bc_slot(b, c)],
+}
+
+
 def components_for(cname):
     c = dict(COMPONENTS)
     if cname in ("StereoMolGraph", "StereoCondensedReactionGraph"):
@@ -141,16 +171,19 @@ def bond_norm(pts, sorts):
     return [BondS.lo(p) <= BondS.hi(p) for p, s in zip(pts, sorts) if s == "bond"]
 
 
-def run_method(world, cname, mname, contract, iter_bound=2, attr_access=None):
+def run_method(world, cname, mname, contract, iter_bound=2, attr_access=None, callee_contracts=None, chg_one_slot=False):
     """-> (paths, None) ; each path.handles has g0, g1, h0, h1, v0, sym, bounded"""
     it = Interp(world)
     GM.install(it)
     it.prune = prune
     cls = world.cls(cname)
+    for key, fn in (callee_contracts or {}).items():
+        it.contracts[key] = fn
 
     def thunk(interp, handles):
         interp.state["heap"] = Heap("pre")
         interp.state["iter_bound"] = iter_bound
+        interp.state["chg_one_slot"] = chg_one_slot
         h = heap_of(interp)
         g = GM.sym_graph(interp, cname, "g_")
         interp.assume(h.A0 >= 0)
@@ -163,6 +196,11 @@ def run_method(world, cname, mname, contract, iter_bound=2, attr_access=None):
             interp.assume(f)
         pos, kw, sym = contract.args(interp, g, cname)
         interp.assume(contract.extra_pre(v0, sym, cname))
+        H._CURRENT["interp"] = interp
+        interp.state["wf_view"] = (v0, cname)
+        for t_ in sym.values():
+            if t_ is not None and z3.is_expr(t_) and not str(t_).endswith("_ref"):
+                H.note_ground(interp, t_)
         handles.update(g0=g0, g1=g, h0=h0, h1=h, v0=v0, sym=sym)
         try:
             if attr_access:
@@ -176,16 +214,17 @@ def run_method(world, cname, mname, contract, iter_bound=2, attr_access=None):
                 res = interp.call_value(BoundMethod(g, m[1], c), pos, kw)
         finally:
             handles["bounded"] = bool(interp.state.get("bounded_iteration"))
+            handles["ground"] = (list(interp.state.get("ground_ints", [])), list(interp.state.get("ground_bonds", [])))
         return res
 
     return it.run(thunk)
 
 
-def verify_mutator(obs, world, cname, mname, contract, pid_map, timeout=20000, iter_bound=2):
+def verify_mutator(obs, world, cname, mname, contract, pid_map, timeout=20000, iter_bound=2, callee_contracts=None, chg_one_slot=False):
     """pid_map: {"C19": bool, "C09": bool} which property's clauses to emit"""
     base = f"{REL[cname]}:{cname}.{mname}"
     try:
-        paths = run_method(world, cname, mname, contract, iter_bound)
+        paths = run_method(world, cname, mname, contract, iter_bound, callee_contracts=callee_contracts, chg_one_slot=chg_one_slot)
     except OutOfSubset as e:
         obs.append(Ob(f"E1/{base}", "proof", ERROR, detail=f"out of subset: {e}"))
         return
@@ -193,6 +232,8 @@ def verify_mutator(obs, world, cname, mname, contract, pid_map, timeout=20000, i
         obs.append(Ob(f"E1/{base}", "proof", ERROR, detail="no paths"))
         return
     comps = components_for(cname)
+    n_ret = sum(1 for p in paths if p.outcome[0] == "ret")
+    n_raise = len(paths) - n_ret
     for i, p in enumerate(paths):
         hd = p.handles
         if "v0" not in hd:
@@ -213,6 +254,12 @@ def verify_mutator(obs, world, cname, mname, contract, pid_map, timeout=20000, i
         arg_descr = [t for t in sym.values() if t is not None and z3.is_expr(t) and t.sort() == H.DescrS]
         for t in arg_descr:
             arg_ints += [H.OIntS.ov(GM.d_slot(t, 0)), H.OIntS.ov(GM.d_slot(t, 2)), H.OIntS.ov(GM.d_slot(t, 3))]
+        for t in hd.get("ground", ([], []))[0]:
+            if not any(t.eq(y) for y in arg_ints):
+                arg_ints.append(t)
+        for t in hd.get("ground", ([], []))[1]:
+            if not any(t.eq(y) for y in arg_bonds):
+                arg_bonds.append(t)
 
         base_cache = {}
 
@@ -267,6 +314,13 @@ def verify_mutator(obs, world, cname, mname, contract, pid_map, timeout=20000, i
                     emit("C09", f"view/{cn}", [z3.Not(R), *bond_norm(pts, sorts), g_, got != exp2], f"view component {cn} differs from the reference transition", skolems=pts)
                 for wname, vs, body, _ in GM.wf_raw(v1, cname, tag="n", bound=alloc_top(h1)):
                     emit("C09", f"wf/{wname}", [z3.Not(R), z3.Not(body)], f"representation invariant {wname} not re-established", skolems=vs)
+        # intermediate obligations of this path (callee pre-conditions, loop invariants)
+        for aname, apc, aass, af in p.asserts:
+            if pid_map.get("C09"):
+                r_, s_, dt_ = solve(list(aass) + list(apc) + [z3.Not(af)], timeout)
+                nm = f"C09/{base}/{aname}#path{i}"
+                obs.append(Ob(nm, kind, DISCHARGED if r_ == z3.unsat else (FAILED if r_ == z3.sat else UNDECIDED), "z3", dt_,
+                              detail="" if r_ == z3.unsat else "intermediate obligation fails"))
         flush(obs, pending, pre, instances, base, i, kind, p, sym, raised, timeout)
 
 
@@ -283,15 +337,18 @@ def flush(obs, pending, pre, instances, base, i, kind, p, sym, raised, timeout):
     for pid, clause, fs, what, sk_ in pending:
         name = f"{pid}/{base}/{clause}#path{i}"
         t = time.time()
-        inst = [B(f) for f in instances(sk_)]
         r = None
-        for attempt, seed in enumerate((0, 7)):
+        # stage A: the quantified invariant with E-matching only (milliseconds when it works);
+        # stage B/C: plus ground instances of the invariant at the clause's Skolem constants and the arguments
+        for attempt in range(3):
             solver = z3.Solver()
-            solver.set("timeout", timeout if attempt == 0 else 3 * timeout)
+            solver.set("timeout", min(timeout, 3000) if attempt == 0 else (timeout if attempt == 1 else 3 * timeout))
             solver.set("auto_config", False)
             solver.set("mbqi", False)
-            solver.set("random_seed", seed)
-            solver.add(*hyp, *inst)
+            solver.set("random_seed", 7 * attempt)
+            solver.add(*hyp)
+            if attempt > 0:
+                solver.add(*[B(f) for f in instances(sk_)])
             for f in fs:
                 solver.add(B(f))
             r = solver.check()
@@ -349,3 +406,61 @@ def verify_query(obs, world, cname, qname, contract, timeout=20000):
                           witness={"cname": cname, "method": mname, "clause": "lookup", "args": wit}))
         else:
             obs.append(Ob(name, kind, UNDECIDED, "z3", dt, detail=s.reason_unknown()))
+
+
+# ------------------------------------------------------------------------------------------------ modular calls
+MODIFIES = {
+    # callee -> dict/set types its body may write (checked when the callee itself is verified: `frame-types`)
+    "remove_atom": {"dict": ("atoms", "nbrs", "bonds", "astereo", "bstereo"), "set": ("iset",)},
+}
+
+
+def apply_contract(interp, g, callee_cname, mname, contract, sym):
+    """A caller is checked against the callee's CONTRACT, not its body: fork on the rejected case, otherwise havoc
+    what the callee may modify and assume its post-condition (views = reference transition, invariant, frame)."""
+    h = heap_of(interp)
+    v_pre = GM.View(h.snapshot(), Obj(g.cls, dict(g.fields)))
+    R = contract.rejected(v_pre, sym, callee_cname)
+    # the callee's pre-condition (its part of the invariant) is an obligation of the caller
+    for wname, f in GM.wf_clauses(v_pre, callee_cname, tag="cp", use_patterns=False, bound=alloc_top(h)):
+        interp.oblige(f"callee-pre/{mname}/{wname}", f)
+    if interp.decide(R):
+        raise PyRaise("KeyError", f"{mname}: rejected by contract")
+    interp.state["n_havoc"] = interp.state.get("n_havoc", 0) + 1
+    tag = f"hv{interp.state['n_havoc']}"
+    mod = MODIFIES[mname]
+    fields = [f for f in g.fields if f in GM.CLASS_FIELDS[callee_cname]]
+    for n in mod["dict"]:
+        t = H.DICT_TYPES[n]
+        refs = [g.fields[f].ref for f in fields if GM.FIELD_TYPES[f].name == n]
+        nd = z3.Const(f"dom_{n}!{tag}", t.dom_sort)
+        nv = z3.Const(f"val_{n}!{tag}", t.val_sort)
+        r = z3.Int(f"r!{tag}{n}")
+        other = z3.And(*[r != x for x in refs]) if refs else z3.BoolVal(True)
+        interp.assume(z3.ForAll([r], z3.Implies(other, z3.And(z3.Select(nd, r) == z3.Select(h.dom[n], r), z3.Select(nv, r) == z3.Select(h.val[n], r))),
+                                patterns=[z3.Select(nd, r), z3.Select(nv, r)]))
+        h.dom[n], h.val[n] = nd, nv
+    old_mem = {n: h.mem[n] for n in mod["set"]}
+    for n in mod["set"]:
+        h.mem[n] = z3.Const(f"mem_{n}!{tag}", H.SET_TYPES[n].mem_sort)
+    v_post = GM.View(h.snapshot(), Obj(g.cls, dict(g.fields)))
+    spec = contract.spec(v_pre, sym, callee_cname)
+    for cn, (sorts, getter, guard) in components_for(callee_cname).items():
+        pts = skolem(sorts, f"{tag}{cn}")
+        exp = spec[cn](*pts) if cn in spec else getter(v_pre, *pts)
+        body = getter(v_post, *pts) == exp
+        if guard is not None:
+            body = z3.Implies(guard(v_post, *pts), body)
+        norm = bond_norm(pts, sorts)
+        if norm:
+            body = z3.Implies(z3.And(*norm), body)
+        pat = PATTERNS[cn](v_post, *pts)
+        interp.assume(z3.ForAll(pts, body, patterns=pat))
+    # attribute dictionaries and (for the remaining atoms) neighbour-set objects keep their identity
+    x = z3.Int(f"x!{tag}")
+    b = z3.Const(f"b!{tag}", BondS)
+    interp.assume(z3.ForAll([x], z3.Implies(v_post.atom(x), z3.And(v_post.aref(x) == v_pre.aref(x), v_post.nref(x) == v_pre.nref(x))), patterns=[v_post.aref(x)]))
+    interp.assume(z3.ForAll([b], z3.Implies(v_post.bond(b), v_post.bref(b) == v_pre.bref(b)), patterns=[v_post.bref(b)]))
+    for wname, f in GM.wf_clauses(v_post, callee_cname, tag=tag, bound=alloc_top(h)):
+        interp.assume(f)
+    return None
